@@ -32,7 +32,6 @@ Case(e) ==
   /\ Len(e.out) = Len(e.in)
   /\ \A i \in 1..Len(e.in) : FrameOK(e.out[i], e.in[i], e.o)
   /\ (e.o.a = 1 => e.ascii = 1)
-  /\ (e.rt # "" => e.rt = RouteOf(e.o))
 
 Init == l = 1
 
